@@ -292,7 +292,9 @@ struct ThreadEngine: Engine{
     if(nr>reported){
       RaceRec& rr=g_races[reported<16?reported:15]; reported=nr;
       std::string a=rr.f0,b=rr.f1; if(b<a) std::swap(a,b);
-      fail("tsan:data-race",a+" / "+b,std::string(rr.desc)+" between "+(a.empty()?"?":a)+" and "+(b.empty()?"?":b));
+      // the signature is deliberately coarse: TSan reports each racy pair once per process, so which pair a run reports depends on what
+      // earlier runs of the same worker already reported; the pair is given in the detail
+      fail("tsan:data-race","race",std::string(rr.desc)+" between "+(a.empty()?"?":a)+" and "+(b.empty()?"?":b));
     }
     // (2) sequential results
     if(ref.aborted||run.aborted||ref.sr.deadlock||run.sr.deadlock) fail("sched:deadlock","","a receive was never satisfied");
